@@ -56,6 +56,7 @@ def mkq(c, i):
 
 
 class QBase(Contract):
+    replay_decides = False  # the granted callback is a havoc'ing call-out (re-entrant application code): not an input
     prop = "C07"
     module = M
     differential = False
@@ -108,6 +109,8 @@ class Put(QBase):
         refused_changes_nothing=lambda S: None if S.exc is None else band(
             len(S.trace) == 0, veq(S.new.q.pending, S.old.q.pending), veq(S.new.q.waiting, S.old.q.waiting)),
         limits_unchanged=lambda S: band(veq(S.new.q.size, S.old.q.size), veq(S.new.q.backlog, S.old.q.backlog)),
+        # the waiter's callback may put() / get() again: nothing of the queue is written after it returns
+        nothing_written_after_the_delivery=lambda S: unchanged_since_last_callout(S, "q", ("waiting", "pending")),
     )
     canaries = [("len(self.pending) < self.size", "len(self.pending) <= self.size", "QueueOverflow-exactly-when"),
                 ("self.waiting.pop(0).callback(obj)", "self.waiting.pop().callback(obj)", "delivered_to_oldest_waiter")]
